@@ -71,16 +71,15 @@ Definition complete (c : cfg) (cx : Cx) (opcode mop : N) (assembled : bytes) (co
 Definition handle_frame (c : cfg) (m : mstate) (fin : bool) (opcode : N) (payload : bytes) (compressed : N) : hres :=
   if (opcode =? OP_TEXT) || (opcode =? OP_BINARY) || (opcode =? OP_CONTINUATION) then
     if cont_not_started opcode (m_opcode m) then perr
+    else if data_in_message opcode (m_opcode m) then perr
     else if negb fin then
       HOk [] (mkm (m_partial m ++ payload)
                   (if negb (opcode =? OP_CONTINUATION) then opcode else m_opcode m) (m_cx m))
     else
-      let has_partial := negb (lenN (m_partial m) =? 0) in
-      if negb (opcode =? OP_CONTINUATION) && has_partial then perr
-      else
-        let opcode' := if opcode =? OP_CONTINUATION then m_opcode m else opcode in
-        let mop' := if opcode =? OP_CONTINUATION then NOT_SET_OP else m_opcode m in
-        complete c (m_cx m) opcode' mop' (m_partial m ++ payload) compressed
+      (* `assembled = partial + payload if has_partial else payload`: the same bytes; _partial is cleared *)
+      let opcode' := if opcode =? OP_CONTINUATION then m_opcode m else opcode in
+      let mop' := if opcode =? OP_CONTINUATION then NOT_SET_OP else m_opcode m in
+      complete c (m_cx m) opcode' mop' (m_partial m ++ payload) compressed
   else if opcode =? OP_CLOSE then
     match payload with
     | b0 :: b1 :: reason =>                      (* payload_len >= 2 *)
